@@ -98,6 +98,7 @@ type Exec struct {
 	rcache     map[*Term]*rendered
 	startModel Model
 	prunedAlts int
+	fixOrder   bool
 	intSolved  int
 	modelStale bool
 	gaddr      map[*ssa.Global]uint64
@@ -153,6 +154,7 @@ func (ex *Exec) resetPath() {
 	ex.panicStack = nil
 	ex.callStack = nil
 	ex.stepLimit = 0
+	ex.fixOrder = false
 	ex.arithInt = false
 	ex.globalsFrozen = ""
 	ex.tracing = false
@@ -901,6 +903,10 @@ func (ex *Exec) call(fn *ssa.Function, args []Value, env []Value) (result Value)
 	ex.callStack = append(ex.callStack, name)
 	defer func() { ex.callStack = ex.callStack[:len(ex.callStack)-1] }()
 	if ex.depth > ex.maxDepth {
+		if ex.stepLimit > 0 {
+			ex.stepLimit = 0
+			ex.fail("step-bound", "unbounded recursion (call depth exceeded) in "+name)
+		}
 		panic(pathEnd{"budget", "call depth exceeded in " + name})
 	}
 	defer func() { ex.depth-- }()
@@ -1676,3 +1682,5 @@ func (ex *Exec) raceSolve(conj []*rendered, vars []*Term) (Verdict, Model) {
 	}
 	return v, m
 }
+
+func (ex *Exec) fixedOrder() bool { return ex.fixOrder || ex.W.fixedMapOrder }
